@@ -21,7 +21,7 @@ gin = ginenv.import_gin()
 ID = 'C04'
 LEVEL = 'exploration'
 ISOLATE = True
-BUDGET = {'quick': (8, 120), 'thorough': (16, 3000)}
+BUDGET = {'quick': (16, 120), 'thorough': (16, 3000)}
 RULE = ('consumer (function or class, any registration API) with 3 defaulted parameters bound to '
         'value trees (lists/tuples/dicts, depth<=3) whose leaves are literals or references '
         '(@p, @p(), scoped with 1-2 scope components) to two producers; producer bindings under '
